@@ -119,6 +119,9 @@ def main(argv):
         os.remove(old)      # replay files of an earlier run with the same parameters
     try:
         level = mod.run(ctx)
+    except core.CodeCrash as e:
+        report_crashes(ctx, [e.stack], "a goroutine of the code under test panicked and took the driver down")
+        level = "model_checking"
     except core.Infra as e:
         print("INFRA-ERROR property=%s %s" % (pid, e), file=sys.stderr)
         return EXIT_INFRA
